@@ -28,7 +28,12 @@ def run_case(data):
     ch = Chooser(data)
     r = Result()
     client = ch.bool()
-    w = World(client, r, 'C24')
+    # one case in four: a client that has switched outbound normalisation off and builds every request in one list
+    # object that it keeps editing (what was sent is what counts, not what the list says later)
+    recycled = [] if client and ch.chance(64) else None
+    w = World(client, r, 'C24', **({'normalize_outbound_headers': False} if recycled is not None else {}))
+    if recycled is not None:
+        r.labels.add('recycled-request-list-without-normalisation')
     m = w.m
     authority = {}
     odd_state = False
@@ -43,7 +48,10 @@ def run_case(data):
             if client:
                 sid = w.next_local_id()
                 hdrs = req_for(sid)
-                if ch.chance(80):
+                if recycled is not None:
+                    recycled[:] = hdrs
+                    hdrs = recycled
+                elif ch.chance(80):
                     # the request as the application may write it: the library normalises names and values before
                     # it sends them, and remembers the :authority it actually sent
                     host = 'host%d.example' % sid
@@ -59,6 +67,8 @@ def run_case(data):
                                      lambda: m.apply_send_headers(sid, what, es))
                 if res == 'ok':
                     authority[sid] = b'host%d.example' % sid
+                if recycled is not None:
+                    recycled[2] = (b':authority', b'scribbled-over.example')
             else:
                 sid = w.next_peer_id()
                 res, o = w.recv_headers(sid, 'final', ch.chance(64), hdrs=req_for(sid))
